@@ -209,6 +209,7 @@ def run_leb_kernel(ctx, report, timeout_ms):
         sp.funcs[0]['positions'] = [BV(a + 1 + j, 'usize') for j in range(len(sp.funcs[0]['ops']))]
         oks, errs, panics = pc.parse_ok_paths(I, P, sp, st=st)
         bad = []
+        small = []
         nq = 0
         for s, module in oks:
             funcs = module.get('funcs').get('arena').get('inner').f[0].items
@@ -228,6 +229,14 @@ def run_leb_kernel(ctx, report, timeout_ms):
                 if r == z3.unknown:
                     raise Inconclusive('solver timeout on the LEB-length kernel')
                 if r == z3.sat:
+                    # prefer a witness that can be built natively (a body padded with nops to that size)
+                    sol.push()
+                    sol.add(z3.ULT(sz, z3.BitVecVal(20000, 64)), z3.UGE(sz, z3.BitVecVal(5, 64)))
+                    if sol.check() == z3.sat:
+                        small.append(sol.model().eval(sz, True).as_long())
+                    else:
+                        sol.pop()
+                        sol.check()
                     m = sol.model()
                     bad.append('original_range.%s is %s, expected %s for body size %s' % (what, m.eval(g, True), m.eval(w, True), m.eval(sz, True)))
         for s in panics:
@@ -240,7 +249,14 @@ def run_leb_kernel(ctx, report, timeout_ms):
         if bad:
             ob.status = 'violated'
             ob.cex = bad[:3]
-            report.violations.append({'key': 'dwarf.original_range', 'what': bad[0]})
+            vio = {'key': 'dwarf.original_range', 'what': bad[0]}
+            if small:
+                # native witness: three functions, the middle one padded with nops to exactly that body size
+                # (1 byte locals count + i32.const 0 (2) + drop (1) + n nops + end (1))
+                wsp = c11.spec_for(3)
+                wsp.funcs[1] = dict(type=0, ops=[OP('I32Const', value=bv(0, 'i32')), OP('Drop')] + [OP('Nop')] * (small[0] - 5) + [OP('End')], start=usize(1400))
+                vio.update(spec=wsp, model=None, pc=[], dwarf_script={'gc': False})
+            report.violations.append(vio)
         else:
             ob.status = 'discharged' if oks else 'inconclusive'
             ob.detail = '%d paths, %d queries over all 64-bit body sizes >= 1' % (len(oks), nq)
